@@ -883,7 +883,9 @@ func c16Y3(l *core.Ledger, g *gen.Generator, doc *optionsDoc) map[string]int {
 			}
 		}
 		// server streams only with correctable
-		v, acc := findValuation(func(v gen.Valuation) bool { return v.StreamServer && !v.Opts["correctable"] && !decide(g, reject, v).rejected })
+		v, acc := findValuation(func(v gen.Valuation) bool {
+			return v.StreamServer && !v.Opts["correctable"] && !decide(g, reject, v).rejected
+		})
 		l.Check(!acc, "C16-Y3", "doc/stream/server-needs-correctable", token.NoPos, "server streams without correctable are rejected", "a server-streaming method without the correctable option is accepted: "+valuationString(v))
 	}
 	l.Extra["decision_table"] = stats
@@ -940,11 +942,11 @@ func optionsMentioned(g *gen.Generator, e ast.Expr) []string {
 // whose results reach emitted non-comment text (directly, through $variables,
 // or by controlling an {{if}}).
 type tmplUse struct {
-	funcsOut   map[string]bool   // functions influencing non-comment output
-	funcsAll   map[string]bool   // every function referenced
-	uses       []string          // arguments of `use`
-	cdVar      string            // the $variable holding `use "gorums.XCallData"`
-	cdType     string            // XCallData
+	funcsOut   map[string]bool // functions influencing non-comment output
+	funcsAll   map[string]bool // every function referenced
+	uses       []string        // arguments of `use`
+	cdVar      string          // the $variable holding `use "gorums.XCallData"`
+	cdType     string          // XCallData
 	text       string
 	fieldsLit  []string // Field: keys inside the call-data literal
 	fieldsAsgn []string // cd.Field = assignments
